@@ -95,34 +95,12 @@ def check(ctx):
                 if not started and not waiting and g.count_of(fs, "pass") != {1}:
                     bad.append(M.fmt_facts(fs)[:300])
         ctx.ob("b.pass", "pass-when-idle|%s" % f.name, not bad, "the token use returns without a transmission and without requesting the token pass: " + "; ".join(bad[:2]), f.loc(0))
-        # c: deadline
-        nde = 0
-        for b, i, s in stmts(f):
-            if "a" in s and has_field(s["a"], "end_token_hold_time", "Instant") and len([e for e in s["a"]["p"] if isinstance(e, dict)]) == 1:
-                nde += 1
-                v = simplify(tb.rvalue(s["rv"]))
-                sv = show(v)
-                ok_v = "self.last_token_time" in sv and "token_rotation_time" in sv and strip_refs(v)[0] == "call" and strip_refs(v)[1].endswith("::add")
-                S = g.at(b, i)
-                fresh = all(g.count_of(fs, "ltt") == {0} for fs in S)
-                ok_g, w = M.all_disj(S, M.key_cmp("eq", M.t_path("self.last_token_time"), lambda t: (path_str(t) or "").endswith("data.token_time")), {False})
-                ctx.ob("c.deadline", "deadline-value", ok_v and fresh and ok_g,
-                       "end_token_hold_time must be (previous token receipt + target rotation time), computed before the receipt time is updated and once per visit; found %s; receipt already updated: %s; %s" % (sv, not fresh, w), f.loc(b, i))
-        ctx.anchor("stores of end_token_hold_time", nde, 1)
-        for b, c in call_sites(f, lambda c: (c.get("callee") or "").endswith("SubAssign<time::Duration>>::sub_assign")):
-            a0 = path_str(strip_refs(tb.joperand(c["args"][0]))) or ""
-            if a0 == "self.end_token_hold_time":
-                ok, w = M.all_disj(g.at(b), lambda k: k == ("discr", ("field", fdlstate.SELF, "gap_state")), {"DoPoll"})
-                ctx.ob("c.deadline", "gap-reserve-only-when-polling", ok, "the GAP-poll reserve is subtracted from the hold time although no poll is due: " + w, f.loc(b))
-        for b, i, s in stmts(f):
-            if (b, i) in marks and marks[(b, i)] == "ltt":
-                v = tb.rvalue(s["rv"])
-                ctx.ob("c.deadline", "receipt-time-source", (path_str(strip_casts(v)) or "").endswith("data.token_time"), "last_token_time must be the visit's token receipt time, found " + show(v), f.loc(b, i))
         # d: flag set before each application cycle
         for fb, b, c in [s for s in sites if s[0] is f]:
             gm = GuardAnalysis(f, P, mem_kill=True)
             ok, w = M.all_disj(gm.at(b), FCD, {True})
             ctx.ob("d.flag", "set-before-cycle#%s" % show(tb.joperand(c["args"][-1])), ok, "an application cycle starts without marking the visit's guaranteed cycle as used: " + w, f.loc(b))
+    check_deadline(ctx, P, fns)
     # receipt times
     n = 0
     for f in fns:
@@ -189,6 +167,44 @@ def check_all(ctx):
     # e: at most one GAP poll per token visit (shared with C12.c) – the visit's length stays bounded
     from rules import C12
     C12.check_typestate(ctx, ctx.prog)
+
+
+def check_deadline(ctx, P, fns):
+    """c.deadline, evaluated wherever the deadline is stored (the token-use handler or a helper it calls)"""
+    nde = 0
+    for f in fns:
+        has = any("a" in s and has_field(s["a"], "end_token_hold_time", "Instant") for b, i, s in stmts(f)) or \
+            any(True for b, c in call_sites(f, lambda c: (c.get("callee") or "").endswith("SubAssign<time::Duration>>::sub_assign")))
+        if not has:
+            continue
+        ctx.analysed_fns.add(f.name)
+        tb = TermBuilder(f, P)
+        marks = {}
+        for b, i, s in stmts(f):
+            if "a" in s and has_field(s["a"], "last_token_time", "Instant") and len([e for e in s["a"]["p"] if isinstance(e, dict)]) == 1:
+                marks[(b, i)] = "ltt"
+        g = GuardAnalysis(f, P, marks=marks)
+        for b, i, s in stmts(f):
+            if "a" in s and has_field(s["a"], "end_token_hold_time", "Instant") and len([e for e in s["a"]["p"] if isinstance(e, dict)]) == 1:
+                nde += 1
+                v = simplify(tb.rvalue(s["rv"]))
+                sv = show(v)
+                ok_v = "self.last_token_time" in sv and "token_rotation_time" in sv and strip_refs(v)[0] == "call" and strip_refs(v)[1].endswith("::add")
+                S = g.at(b, i)
+                fresh = all(g.count_of(fs, "ltt") == {0} for fs in S)
+                ok_g, w = M.all_disj(S, M.key_cmp("eq", M.t_path("self.last_token_time"), lambda t: (path_str(t) or "").endswith("data.token_time")), {False})
+                ctx.ob("c.deadline", "deadline-value", ok_v and fresh and ok_g,
+                       "end_token_hold_time must be (previous token receipt + target rotation time), computed before the receipt time is updated and once per visit; found %s; receipt already updated: %s; %s" % (sv, not fresh, w), f.loc(b, i))
+        for b, c in call_sites(f, lambda c: (c.get("callee") or "").endswith("SubAssign<time::Duration>>::sub_assign")):
+            a0 = path_str(strip_refs(tb.joperand(c["args"][0]))) or ""
+            if a0 == "self.end_token_hold_time":
+                ok, w = M.all_disj(g.at(b), lambda k: k == ("discr", ("field", fdlstate.SELF, "gap_state")), {"DoPoll"})
+                ctx.ob("c.deadline", "gap-reserve-only-when-polling", ok, "the GAP-poll reserve is subtracted from the hold time although no poll is due: " + w, f.loc(b))
+        for b, i, s in stmts(f):
+            if (b, i) in marks and marks[(b, i)] == "ltt":
+                v = tb.rvalue(s["rv"])
+                ctx.ob("c.deadline", "receipt-time-source", (path_str(strip_casts(v)) or "").endswith("data.token_time"), "last_token_time must be the visit's token receipt time, found " + show(v), f.loc(b, i))
+    ctx.anchor("stores of end_token_hold_time", nde, 1)
 
 
 if __name__ == "__main__":
